@@ -12,6 +12,7 @@ pub fn case_json(prop: &str, verif_seed: u64, idx: u64) -> Value {
         Engine::Wal => serde_json::to_value(crate::walsim::gen_case(verif_seed, idx)).unwrap(),
         Engine::Wire => serde_json::to_value(crate::wiresim::gen_case(verif_seed, idx)).unwrap(),
         Engine::Thread => serde_json::to_value(crate::threadsim::gen_case(verif_seed, idx)).unwrap(),
+        Engine::Btree if prop == "C11" && idx % 2 == 1 => serde_json::to_value(run::gen_sql_case(prop, verif_seed, idx)).unwrap(),
         Engine::Btree => serde_json::to_value(crate::btsim::gen_case(prop, verif_seed, idx)).unwrap(),
         _ => json!({}),
     }
@@ -24,6 +25,7 @@ pub fn sample_json(prop: &str, verif_seed: u64, idx: u64) -> Value {
         Engine::Wal => crate::walsim::sample_of(&crate::walsim::gen_case(verif_seed, idx)),
         Engine::Wire => crate::wiresim::sample_of(&crate::wiresim::gen_case(verif_seed, idx)),
         Engine::Thread => crate::threadsim::sample_of(&crate::threadsim::gen_case(verif_seed, idx)),
+        Engine::Btree if prop == "C11" && idx % 2 == 1 => run::sample_of(&run::gen_sql_case(prop, verif_seed, idx)),
         Engine::Btree => crate::btsim::sample_of(&crate::btsim::gen_case(prop, verif_seed, idx)),
         _ => json!({}),
     }
@@ -32,7 +34,10 @@ pub fn sample_json(prop: &str, verif_seed: u64, idx: u64) -> Value {
 pub fn guards_for(prop: &str) -> Vec<String> {
     let info = props::prop(prop).expect("property");
     match info.engine {
-        Engine::Sql | Engine::Crash => {
+        Engine::Sql | Engine::Crash | Engine::Btree => {
+            if info.engine == Engine::Btree && prop != "C11" {
+                return vec![];
+            }
             let mut r = crate::util::Rng::new(1);
             props::profile_for(prop, &mut r).guards
         }
@@ -82,6 +87,15 @@ pub fn run_one(prop: &str, verif_seed: u64, idx: u64) -> RunResult {
         Engine::Wal => crate::walsim::run_case(&crate::walsim::gen_case(verif_seed, idx), idx),
         Engine::Wire => crate::wiresim::run_case(&crate::wiresim::gen_case(verif_seed, idx), idx),
         Engine::Thread => crate::threadsim::run_case(&crate::threadsim::gen_case(verif_seed, idx), idx),
+        Engine::Btree if prop == "C11" && idx % 2 == 1 => {
+            let case = run::gen_sql_case(prop, verif_seed, idx);
+            let mut r = run::run_sql_case(&case, idx);
+            if let Some((i, g)) = run::audit_generated(&case) {
+                r.counters.insert(format!("generator_tripped_guard:{g}"), 1);
+                r.hazards.push(format!("generated history trips guard {g} at event {i}"));
+            }
+            r
+        }
         Engine::Btree => crate::btsim::run_case(&crate::btsim::gen_case(prop, verif_seed, idx), idx),
         _ => unimplemented!(),
     }
